@@ -195,7 +195,7 @@ def observe(s, intent=None, styles=None, seps=None, lead="", trail="", full_run=
         ev["obs"] = {"kind": "exc", "cls": "NotRun", "toks": [], "opt": [], "toksAfter": []}
         return ev
     try:
-        budget.call(_fill, ev, s, intent, full_run, seconds=8)
+        budget.call(_fill, ev, s, intent, full_run, seconds=30)
     except budget.Budget:
         _TIMEOUTS[0] += 1
         ev["obs"] = {"kind": "exc", "cls": "DoesNotTerminate", "toks": [], "opt": [], "toksAfter": []}
